@@ -6,6 +6,19 @@ from .layers import TrunkLinear
 from ..fcn import _construct_FC_layers
 
 
+def _check_output_neurons(output_space, output_neurons):
+    """The output neurons are split evenly over the dimensions of the output space.
+    If this is not possible the reshape of the network output would mix the
+    features of different inputs (or fail), therefore it is rejected here.
+    """
+    if output_space.dim < 1 or output_neurons % output_space.dim != 0:
+        raise ValueError(
+            f"""The number of output neurons ({output_neurons}) has to be a
+                multiple of the dimension of the output space
+                ({output_space.dim})."""
+        )
+
+
 class TrunkNet(Model):
     """A neural network that can be used inside a DeepONet-model.
 
@@ -39,11 +52,12 @@ class TrunkNet(Model):
         output_space : Space
             The space in which the final output of the DeepONet will belong to.
         output_neurons : int
-            The number of output neurons. Will be multiplied my the dimension of the
-            output space, so each dimension will have the same number of
-            intermediate neurons.
+            The number of output neurons. Has to be a multiple of the dimension of
+            the output space, each dimension gets the same number
+            (output_neurons / dimension) of intermediate neurons.
 
         """
+        _check_output_neurons(output_space, output_neurons)
         self.output_neurons = output_neurons
         self.output_space = output_space
 
@@ -53,10 +67,10 @@ class TrunkNet(Model):
                 output.shape[0],
                 output.shape[1],
                 self.output_space.dim,
-                int(self.output_neurons / self.output_space.dim),
+                self.output_neurons // self.output_space.dim,
             )
         return output.reshape(
-            -1, self.output_space.dim, int(self.output_neurons / self.output_space.dim)
+            -1, self.output_space.dim, self.output_neurons // self.output_space.dim
         )
 
 
